@@ -66,7 +66,7 @@ CLAIMS = {
             "only under its lock in link/_unlink; LRU size and key map change together and nodes are freed after unmapping, "
             "raw derefs only under the cache lock; a wait that re-waits on a private predicate is used only where every writer of "
             "that predicate holds the mutex slept with, every other wait is re-entered in a loop.  an unlink that finds a parked linker always announces the free slot; a use (lookup hit, overwrite, insert) makes the LRU entry the most recently used.  notify_head signals whenever a head exists, under no further condition.  The LRU links a new entry before it evicts, and evicts down to the capacity.  Does not decide "
-            "exactly-once/ordering under all interleavings.", "§4 C18"),
+            "The outputs of a batch go to exactly the batched waiters: the window of the zip is [taken off by hand, taken) (C18.1).  exactly-once/ordering under all interleavings.", "§4 C18"),
     "C20": ("whole-program Acquires/MayWait summaries (call graph + typed Drop glue) -> lock-order graph cycles; condvar wait/notify discipline via HELD (Mutex and RwLock guards); ORDER/MUSTPASS for announcements, claim release and the mandatory-compaction emit; re-evaluates the coalescing-queue and wait-list rules C18.1/2/5 that every write passes through",
             "Decides deadlock-freedom structure: no two locks are taken in both orders (one flag-gated pair checked and excepted), "
             "waits re-check their predicate inside one critical section, notifications cannot race a predicate check, the set of "
@@ -95,12 +95,12 @@ CLAIMS = {
             "and rebuilding the heap and moves children by single steps only (no re-seek), every seek positions every child, pruning filters by timestamp <= snapshot, recognises "
             "tombstones and accepts an entry only after screening it against skip_key (seek and next alike); the bounds cursor "
             "re-checks both bounds after every step in both directions; the concatenating cursor leaves an exhausted child.  "
-            "The pruning cursor records every entry it returns (prev as next and seek); the concatenating cursor's binary search never classifies an empty child.  A child that becomes current in the concatenating cursor is positioned by a seek of its own before it is stepped or read.  A lazy cursor stores its resting position only after its last fallible step; wrapper cursors step once per step.  The two positioned arms of the merge comparator compare the same whole keys in mirror-image directions (C11.9).  Does not decide the combinator equivalences for all inputs.", "§4 C11"),
+            "The pruning cursor records every entry it returns (prev as next and seek); the concatenating cursor's binary search never classifies an empty child.  A child that becomes current in the concatenating cursor is positioned by a seek of its own before it is stepped or read.  A lazy cursor stores its resting position only after its last fallible step; wrapper cursors step once per step.  The two positioned arms of the merge comparator compare the same whole keys in mirror-image directions (C11.9).  The pruning cursor treats an entry as visible only behind a branch on its own timestamp taken after the last step of the wrapped cursor (C11.4).  Does not decide the combinator equivalences for all inputs.", "§4 C11"),
     "C07": ("who-frees analysis over Drop impls (GUARDED uniqueness test or pointee ownership), ESCAPE of the VersionRef, ORIGIN pipeline chains, ADT field-type facts; re-evaluates C06.3/5 (snapshot capture and visibility watermark)",
             "Decides the ownership/escape structure a memory-safe snapshot needs: shared memory is freed only by the Arc's pointee or "
             "behind a uniqueness test, iterators hold a clone of the list's Arc, the returned scan cursor owns the VersionRef that "
             "pins its files, every scan pipeline prunes at the captured timestamp, cursors have no borrowed fields.  A `strong_count == 2` last-handle test is made under the file manager's lock.  Every function that replaces the current version takes references for the new one first (C08.2), so a held snapshot keeps pinning its files across trivial moves.  The scan cursor's version pin is a by-value field that is never rewritten.  Does not "
-            "decide which schedules would free memory under a live cursor.", "§4 C07"),
+            "The pruning stage branches on `timestamp <= snapshot` after every step of the cursor over the live memtable (C11.4).  decide which schedules would free memory under a live cursor.", "§4 C07"),
     "C17": ("atomic-ordering operand table with identity-only slice for Relaxed loads, ORDER with cycles (initialise before publish), value slice of the level index (bottom-up linking), who-may-call for deref/free",
             "Decides publication order and confinement: Release stores / AcqRel CAS / Acquire loads on every pointer that can be "
             "dereferenced, the successor is stored into a new node before every linking CAS (on each retry, same observed value), "
@@ -147,7 +147,7 @@ CLAIMS = {
             "agree; plus two small structural clauses: all bit-vector implementations reject the same indices in access (>= len) "
             "and rank (> len), and a backward-search step returns an empty range whenever one of its input ranges is empty.  "
             "Index writers drive no loop by a zip() whose sides can differ in length.  Everything numerical in C19 (search positions, counts, rank/select/access, record mapping, extraction) is "
-            "In suffix-array construction an LMS substring is named apart from its predecessor only by the first-element test or a comparison between the two.  search pushes one located offset per index of the range count() answers with (accepted form).  An absent character gets no symbol: a searched position is answered only behind an equality test.  NOT decided by static analysis and is not claimed.", "§4 C19"),
+            "In suffix-array construction an LMS substring is named apart from its predecessor only by the first-element test or a comparison between the two.  search pushes one located offset per index of the range count() answers with (accepted form).  An absent character gets no symbol: a searched position is answered only behind an equality test.  A bounded locate walk requires sample scans that run to the end of the suffix array (C19.12).  NOT decided by static analysis and is not claimed.", "§4 C19"),
 }
 
 NA_DEFAULT = "check not built yet (DESIGN.md §8 build order); will be claimed once its rule set is armed"
